@@ -147,7 +147,7 @@ func c19(c *Ctx) {
 	}
 
 	// R19.O: a buffer filled from crypto/rand is not written again before it is used as the secret
-	r.Rule("R19.O", "the byte buffers that hold a secret are written by crypto/rand only: no element store, copy or other writer touches them between the read of the random source and their use", 2)
+	r.Rule("R19.O", "the byte buffers that hold a secret are written by crypto/rand only: no element store, copy or other writer touches them between the read of the random source and their use; the big integers that hold one are never the receiver of a math/big method that does not also read them", 4)
 	for _, t := range []struct{ pkg, fn, key string }{{load.SrpPkg, "GetInputCheckPassword", "srp_ephemeral"}, {load.TLPkg, "cryptoRandomBytes", "nonce-bytes"}} {
 		f := c.P.Func(t.pkg, "", t.fn)
 		if f == nil {
@@ -217,6 +217,72 @@ func c19(c *Ctx) {
 		}
 		if n == 0 {
 			r.Undecide("R19.O", "only-writer:"+t.key, c.pos(f.Pos()), "no byte buffer allocated in "+t.fn)
+		}
+	}
+
+	// R19.O for big integers: math/big methods write their receiver. The integer that holds a secret may be
+	// the receiver of a writing method only when the secret itself is among the operands (b.Mod(b, q) keeps a
+	// function of the random draw; b.Sub(p, one) replaces the draw with a public value).
+	bigReadOnly := map[string]bool{"Bytes": true, "Cmp": true, "CmpAbs": true, "Sign": true, "BitLen": true, "Bit": true, "Int64": true, "Uint64": true, "IsInt64": true, "IsUint64": true, "String": true, "Text": true, "Append": true, "Format": true, "FillBytes": true, "TrailingZeroBits": true, "ProbablyPrime": true, "Bits": true, "MarshalText": true, "MarshalJSON": true, "GobEncode": true}
+	bigSecret := func(key string, f *ssa.Function, secret ssa.Value) {
+		var bad []string
+		uses := 0
+		for _, rf := range *secret.Referrers() {
+			ci, ok := rf.(ssa.CallInstruction)
+			if !ok {
+				continue
+			}
+			cc := ci.Common()
+			g := cc.StaticCallee()
+			if g == nil || g.Pkg == nil || g.Pkg.Pkg.Path() != "math/big" || g.Signature.Recv() == nil || len(cc.Args) == 0 {
+				continue
+			}
+			uses++
+			if cc.Args[0] != secret || bigReadOnly[g.Name()] {
+				continue
+			}
+			among := false
+			for _, a := range cc.Args[1:] {
+				if a == secret {
+					among = true
+				}
+			}
+			if !among {
+				bad = append(bad, sprintf("%s at %s writes the integer without reading it", g.Name(), c.pos(ci.Pos())))
+			}
+		}
+		site := c.pos(f.Pos())
+		if secret.Pos().IsValid() {
+			site = c.pos(secret.Pos())
+		}
+		r.Check(len(bad) == 0, "R19.O", "only-writer:"+key, site, sprintf("%d math/big uses of the secret integer; ", uses)+strings.Join(bad, "; "))
+	}
+	if f := c.P.Func(load.MathPkg, "", "MakeGAB"); f != nil {
+		n := 0
+		for _, cs := range an.CallsNamed(f, "crypto/rand.Int") {
+			if call, ok := cs.Instr.(*ssa.Call); ok {
+				for _, rf := range *call.Referrers() {
+					if e, ok := rf.(*ssa.Extract); ok && e.Index == 0 {
+						n++
+						bigSecret(sprintf("dh_exponent-int#%d", n), f, e)
+					}
+				}
+			}
+		}
+		if n == 0 {
+			r.Undecide("R19.O", "only-writer:dh_exponent-int", c.pos(f.Pos()), "no result of crypto/rand.Int found in MakeGAB")
+		}
+	}
+	if srpIn != nil && len(srpIn.Params) == 4 {
+		n := 0
+		for _, cs := range an.CallsNamed(srpIn, load.SrpPkg+".bytesToBig") {
+			if call, ok := cs.Instr.(*ssa.Call); ok && len(cs.Common.Args) == 1 && cs.Common.Args[0] == ssa.Value(srpIn.Params[3]) {
+				n++
+				bigSecret(sprintf("srp_ephemeral-int#%d", n), srpIn, call)
+			}
+		}
+		if n == 0 {
+			r.Undecide("R19.O", "only-writer:srp_ephemeral-int", c.pos(srpIn.Pos()), "bytesToBig(random) not found in getInputCheckPassword")
 		}
 	}
 
